@@ -661,6 +661,26 @@ def range_writer(ctx, rule, parts=("R1", "R2", "R3")):
         ctx.check(ok, rule, fn, "R2:flag-lowered-after-flush", "after the buffer is flushed and cleared the flag is lowered before it can be tested again (no second flush of the emptied buffer)")
         ctx.check(bool(raises) and all(body.dominates(r, sb) or r == sb or body.reaches(r, sb, avoid=[head]) or body.reaches(sb, r, avoid=[head]) for r in raises), rule, fn, "R2:flag-raised-with-bit",
                   "the flag is raised in the iteration that sets a bit")
+    # the two latches of the writer - "bits pending on this line" and "no range token seen yet" - are switched for *every*
+    # bit that is set: no path through an iteration reaches the bit write, or leaves it, without each of them having
+    # been assigned (a latch set under a further condition loses the line's bits, or the whole key, for the other tokens)
+    hd_ = loop_head(body)
+    hb_ = body.blocks[hd_]["term"].get("t") if hd_ is not None else None
+    it_entry = [tb for v, tb in body.blocks[hb_]["term"].get("arms", []) if v == 1] if hb_ is not None and body.blocks[hb_]["term"]["k"] == "switch" else []
+    for l_ in sorted(body.var_names):
+        if body.local_ty(l_) != "bool" or not body.locals[l_]["mut"]:
+            continue
+        ds_ = [(sh, site) for sh, site, _ in q.def_shapes(body, l_, {})]
+        if sorted(set(sh for sh, _ in ds_)) != ["0", "1"]:
+            continue
+        init = [sh for sh, site in ds_ if not body.reaches(hd_, site[0])]
+        in_loop_raise = [site[0] for sh, site in ds_ if body.reaches(hd_, site[0]) and sh != (init[0] if init else None) and body.dominates(rng_sw[0], site[0])] if rng_sw else []
+        if not in_loop_raise or not it_entry:
+            continue
+        before = not body.reaches(it_entry[0], sb, avoid=in_loop_raise + [hd_])
+        after = all(loop_passes(body, x, hd_, in_loop_raise) for x in body.succ[sb] if not body.blocks[x]["cleanup"])
+        ctx.check(before or after, rule, fn, "R2:latch-with-every-bit:%s" % body.var_names[l_], "the latch `%s` is switched in every iteration that sets a range bit (not under a further condition)" % body.var_names[l_],
+                  ctx.site(body, in_loop_raise[0]))
     # flush: encode_rmi called only with had_rmi, before ';' and at the end
     enc = q.calls_to(body, "encoder::encode_rmi")
     ctx.check(len(enc) == 2, rule, fn, "R2:flush:sites", "the per-line bitfield is flushed at a line change and at the end")
